@@ -14,10 +14,10 @@ import (
 
 func init() {
 	reg("idxrank64", func(a []string) string {
-		return showI32s(bitmap.IndexRank64(parseU64s(a[0]), a[1] == "1"))
+		return retainI32s("idxrank64", bitmap.IndexRank64(parseU64s(a[0]), a[1] == "1"))
 	})
 	reg("idxrank128", func(a []string) string {
-		return showI32s(bitmap.IndexRank128(parseU64s(a[0])))
+		return retainI32s("idxrank128", bitmap.IndexRank128(parseU64s(a[0])))
 	})
 	reg("rank64", func(a []string) string {
 		ws := parseU64s(a[0])
@@ -26,13 +26,22 @@ func init() {
 		return fmt.Sprintf("%d,%d", c, b)
 	})
 	reg("rank128", func(a []string) string {
-		ws := parseU64s(a[0])
+		ws := append([]uint64(nil), parseU64s(a[0])...)
 		idx := bitmap.IndexRank128(ws)
-		c, b := bitmap.Rank128(ws, idx, mustI32(a[1]))
-		return fmt.Sprintf("%d,%d", c, b)
+		i := mustI32(a[1])
+		c, b := bitmap.Rank128(ws, idx, i)
+		out := fmt.Sprintf("%d,%d", c, b)
+		// the index built for the PREVIOUS bitmap must still answer for it after this one was built
+		if prevRank128 != nil {
+			if c2, b2 := bitmap.Rank128(prevRank128.ws, prevRank128.idx, prevRank128.i); c2 != prevRank128.c || b2 != prevRank128.b {
+				out = fmt.Sprintf("EARLIER-INDEX-CHANGED-BY-THIS-CALL(was %d,%d now %d,%d):%s", prevRank128.c, prevRank128.b, c2, b2, out)
+			}
+		}
+		prevRank128 = &rank128Retained{ws, idx, i, c, b}
+		return out
 	})
 	reg("idxsel32", func(a []string) string {
-		return showI32s(bitmap.IndexSelect32(parseU64s(a[0])))
+		return retainI32s("idxsel32", bitmap.IndexSelect32(parseU64s(a[0])))
 	})
 	reg("idxsel32r64", func(a []string) string {
 		s, r := bitmap.IndexSelect32R64(parseU64s(a[0]))
@@ -49,6 +58,33 @@ func init() {
 		x, y := bitmap.Select32R64(ws, s, r, mustI32(a[1]))
 		return fmt.Sprintf("%d,%d", x, y)
 	})
+	selMany := func(r64 bool) func(a []string) string {
+		return func(a []string) string {
+			ws := append([]uint64(nil), parseU64s(a[0])...)
+			is := append([]uint64(nil), parseU64s(a[1])...)
+			sidx, ridx := bitmap.IndexSelect32R64(ws)
+			if !r64 {
+				sidx = bitmap.IndexSelect32(ws)
+			}
+			outs := make([]string, len(is))
+			for k, i := range is {
+				outs[k] = "PANIC"
+				func() {
+					defer func() { recover() }()
+					var x, y int32
+					if r64 {
+						x, y = bitmap.Select32R64(ws, sidx, ridx, int32(i))
+					} else {
+						x, y = bitmap.Select32(ws, sidx, int32(i))
+					}
+					outs[k] = fmt.Sprintf("%d,%d", x, y)
+				}()
+			}
+			return strings.Join(outs, ";")
+		}
+	}
+	reg("sel32m", selMany(false))
+	reg("sel32r64m", selMany(true))
 	reg("of", func(a []string) string {
 		ps := parseI32s(a[0])
 		if a[1] == "none" {
@@ -56,7 +92,7 @@ func init() {
 		}
 		return showU64s(bitmap.Of(ps, mustI32(a[1])))
 	})
-	reg("toarray", func(a []string) string { return showI32s(bitmap.ToArray(parseU64s(a[0]))) })
+	reg("toarray", func(a []string) string { return retainI32s("toarray", bitmap.ToArray(parseU64s(a[0]))) })
 	reg("get", func(a []string) string {
 		return strconv.FormatUint(bitmap.Get(parseU64s(a[0]), mustI32(a[1])), 10)
 	})
@@ -111,7 +147,7 @@ func init() {
 		return strconv.Itoa(int(bitmap.PrevOne(parseU64s(a[0]), mustI32(a[1]), mustI32(a[2]))))
 	})
 	reg("join", func(a []string) string {
-		return showU64s(bitmap.Join(parseU64s(a[0]), mustI32(a[1])))
+		return retainU64s("join", bitmap.Join(parseU64s(a[0]), mustI32(a[1])))
 	})
 	reg("getw", func(a []string) string {
 		return strconv.FormatUint(bitmap.Getw(parseU64s(a[0]), mustI32(a[1]), mustI32(a[2])), 10)
@@ -157,7 +193,7 @@ func init() {
 		return fmt.Sprintf("%d,%s", p, bmtree.PathStr(p))
 	})
 	reg("pathsof", func(a []string) string {
-		return showU64s(bmtree.PathsOf(parseStrList(a[0]), mustI32(a[1]), mustI32(a[2]), a[3] == "1"))
+		return retainU64s("pathsof", bmtree.PathsOf(parseStrList(a[0]), mustI32(a[1]), mustI32(a[2]), a[3] == "1"))
 	})
 	reg("p2i", func(a []string) string {
 		return strconv.Itoa(int(bmtree.PathToIndex(mustI32(a[0]), mustU64(a[1]))))
@@ -167,15 +203,24 @@ func init() {
 		return fmt.Sprintf("%d,%d", i, has)
 	})
 	reg("allpaths", func(a []string) string {
-		return showU64s(bmtree.AllPaths(mustI32(a[0]), mustU64(a[1]), mustU64(a[2])))
+		return retainU64s("allpaths", bmtree.AllPaths(mustI32(a[0]), mustU64(a[1]), mustU64(a[2])))
 	})
 	reg("decode", func(a []string) string {
-		return showU64s(bmtree.Decode(mustI32(a[0]), parseU64s(a[1])))
+		return retainU64s("decode", bmtree.Decode(mustI32(a[0]), parseU64s(a[1])))
 	})
 	reg("i2p", func(a []string) string {
 		return strconv.FormatUint(bmtree.IndexToPath(mustI32(a[0]), mustI32(a[1])), 10)
 	})
 }
+
+type rank128Retained struct {
+	ws   []uint64
+	idx  []int32
+	i    int32
+	c, b int32
+}
+
+var prevRank128 *rank128Retained
 
 func runTb(a []string) string {
 	o, thr := mustI64(a[0]), mustI64(a[1])
